@@ -463,6 +463,22 @@ func (c *c18) ffCase(long bool) {
 	end := c.randRate()
 	width := int64(ct) - 1
 
+	// The property's domain is 0 < relay fee <= ceiling (otherwise the relay
+	// floor and the cap contradict each other); a few cases outside it are
+	// kept for the model-vs-code comparison only (the driver does not judge
+	// them).
+	relayPick := c.pick(253, 253, 250, 1000, 1)
+	if c.rng.Intn(40) == 0 {
+		relayPick = 0
+	}
+	if relayPick > end && c.rng.Intn(12) != 0 {
+		if end > 0 {
+			relayPick = 1 + c.rng.Int63n(end)
+		} else {
+			end = relayPick + c.rng.Int63n(1000)
+		}
+	}
+
 	// start: relation with end and the width.
 	var start int64
 	switch c.rng.Intn(12) {
@@ -487,7 +503,7 @@ func (c *c18) ffCase(long bool) {
 		start = 0
 	}
 
-	est := &c18Est{relay: chainfee.SatPerKWeight(c.pick(253, 253, 250, 1000, 1, 0))}
+	est := &c18Est{relay: chainfee.SatPerKWeight(relayPick)}
 	startOpt := fn.None[chainfee.SatPerKWeight]()
 	startS, estS := "none", "none"
 	switch c.rng.Intn(10) {
@@ -495,8 +511,11 @@ func (c *c18) ffCase(long bool) {
 		est.rate = chainfee.SatPerKWeight(start)
 		if c.rng.Intn(4) == 0 {
 			est.relay = chainfee.SatPerKWeight(c.near(start))
-			if est.relay < 0 {
-				est.relay = 0
+			if est.relay < 1 {
+				est.relay = 1
+			}
+			if int64(est.relay) > end && c.rng.Intn(8) != 0 && end > 0 {
+				est.relay = chainfee.SatPerKWeight(end)
 			}
 		}
 		estS = strconv.FormatInt(start, 10)
@@ -842,6 +861,17 @@ func (c *c18) pubCase() {
 	if budget < 0 {
 		budget = 0
 	}
+	// property domain: relay fee <= ceiling = min(budget rate, MaxFeeRate);
+	// keep ~1 in 10 of the cases outside it (compared with the model, not
+	// judged by the monitor).
+	if c.rng.Intn(10) != 0 {
+		if maxRate < relay {
+			maxRate = relay + c.pick(0, 1, 47, 1000, 250000)
+		}
+		if budget*1000/int64(wb) <= relay {
+			budget = relay*int64(wb)/1000 + 1 + c.pick(0, 1, 2, dust, c.rng.Int63n(1+relay*int64(wb)/100))
+		}
+	}
 
 	deadlineDelta := int32(c.randWidthCT() % 1200)
 	switch c.rng.Intn(10) {
@@ -1025,9 +1055,9 @@ func TestVerifC18(t *testing.T) {
 		int64(lnwallet.DustLimitForSize(len(c18P2WSH))),
 		int64(lnwallet.DustLimitForSize(len(c18P2TR))))
 
-	nFloat, nFF, nLong, nPub := 8, 2500, 12, 1500
+	nFloat, nFF, nLong, nPub := 20, 10000, 40, 6000
 	if tier == "thorough" {
-		nFloat, nFF, nLong, nPub = 60, 40000, 300, 25000
+		nFloat, nFF, nLong, nPub = 400, 400000, 1500, 250000
 	}
 	for i := 0; i < nFloat; i++ {
 		c.floatCase(400)
